@@ -1994,3 +1994,31 @@ package mcp
 //@   callee c.opts.CreateMessageHandler: ensures result.1 == nil ==> result.0 != nil   // application code: a handler that reports success hands back a result (assumed)
 //@   requires c != nil && req != nil && req.Params != nil
 //@   modifies *
+
+// The remaining handlers whose params are required (newMethodInfo$1 rejects absent or null params before they run):
+// none of the SDK's own steps panics, whatever the members of the params are.
+//@ func (*Server).complete [C02]
+//@   nopanic
+//@   callee s.opts.CompletionHandler: modifies *
+//@   requires s != nil && req != nil && req.Params != nil
+//@   modifies *
+//@ func (*ServerSession).setLevel [C02]
+//@   nopanic
+//@   requires ss != nil && ss.server != nil && params != nil
+//@   assume ss.server.opts.Logger != nil   // NewServer installs a discard logger when none is given
+//@   modifies *
+//@ func (*ServerSession).callProgressNotificationHandler [C02]
+//@   nopanic
+//@   callee h: modifies *
+//@   requires ss != nil && ss.server != nil
+//@   modifies *
+//@ func (*ClientSession).callProgressNotificationHandler [C02]
+//@   nopanic
+//@   callee h: modifies *
+//@   requires cs != nil && cs.client != nil
+//@   modifies *
+//@ func (*Client).callLoggingHandler [C02]
+//@   nopanic
+//@   callee h: modifies *
+//@   requires c != nil && req != nil
+//@   modifies *
